@@ -14,5 +14,8 @@ Next == /\ ~done /\ done' = TRUE
         /\ \A c \in 0..127 :
              /\ Assert(\A n \in 0..MaxLayers : RulesHold(V(c, n)) <=> (n = c), "the rule is: list length = count")
              /\ PrintT("S|" \o ToJson([id |-> <<"layers", c>>, steps |-> [k \in 1..(MaxLayers + 1) |-> WriteCase(V(c, k - 1))]]))
+             \* list lengths that agree with the count only modulo 2^7 or 2^8 (what a narrowed comparison would accept)
+             /\ (c % 16 \in {0, 4, 15} =>
+                   PrintT("S|" \o ToJson([id |-> <<"layers-mod", c>>, steps |-> << WriteCase(V(c, c + 128)), WriteCase(V(c, c + 256)), WriteCase(V(c, c + 512)) >>])))
 Spec == Init /\ [][Next]_done
 ====
